@@ -237,6 +237,10 @@ func oneService(run *ev.Run, unit int64, r *rand.Rand, dir string) {
 		if big {
 			sz = append(sz, 65535, 65536, 65537, 70000)
 		}
+		if unit%4 == 1 || big {
+			// level-0 tile index 1000: the first index whose path has a second component
+			sz = append(sz, 255990, 256010, 256300)
+		}
 		return sz
 	}
 	scheds := map[*svcLog][]uint64{}
